@@ -23,7 +23,8 @@ RULE = (
     "Hypothesis draws a class (56 core MDFs + 5 core structs, the hand-written family with every validator kind at "
     "several widths/lengths incl. nested structs and struct arrays, or a class built from a drawn field list) and up to 10 "
     "distinct leaf fields (reached through nested structs / struct-array elements) each assigned ONCE through the validated "
-    "API with an in-domain value (extremes, -0.0, NaN, denormals, empty and maximum-length strings, control characters, "
+    "API - arrays in a drawn form: whole array, element by element, or slice by slice, falling back to elements when the "
+    "whole/slice form is refused - with an in-domain value (extremes, -0.0, NaN, denormals, empty and maximum-length strings, control characters, "
     "quotes, all-0x00/0xFF byte arrays, full-length arrays); five independent campaigns check one route each: "
     "from_buffer_copy + copy (equal, storage-disjoint in both directions), from_dict(to_dict()), from_json(to_json(minify in "
     "{F,T})), dict/JSON with strings spelled as character lists, and Message(header, data) through Message.to_json/"
@@ -37,7 +38,9 @@ ASSUME = [
     "behind a string's NUL (such states are not 'field values'); strings contain no embedded NUL",
     "NaN means float('nan') (positive quiet NaN): JSON has one NaN spelling, so the sign/payload of other NaNs is outside "
     "the stated domain",
-    "a value the validated API refuses is not 'constructible' and is skipped (counted as set-refused; C09 owns that)",
+    "a scalar/string value the validated API refuses is not 'constructible' and is skipped (counted as set-refused; C09 owns "
+    "that); an array refused as a whole or as a slice is built element by element instead, a refused element stays 0: whatever "
+    "state results was constructed through the validated API and must round-trip",
     "the character-list spelling of strings is the one message_base._from_dict documents ('list of characters is equivalent "
     "to str', produced by non-Python encoders); it is checked as its own campaign with its own keys",
     "'refused' for a foreign version hash means any exception from Message.from_json",
@@ -145,6 +148,59 @@ def _specials(fi: FI, v) -> set:
     return out
 
 
+ARRAY_KINDS = ("iarr", "farr", "bytes")
+
+
+def _assign(c, fi: FI, v, how: str, res: Result):
+    """Store v in field fi of container c through the validated API in the drawn form: whole field, element by element,
+    or slice by slice.  A whole-array / slice assignment that is refused falls back to element assignment, so every value
+    constructible through ANY form is constructed.  Returns the value actually stored (refused elements stay 0) or None."""
+    if fi.kind not in ARRAY_KINDS:
+        try:
+            setattr(c, fi.name, v)
+        except Exception:
+            res.count("set-refused:" + fi.kind)
+            return None
+        res.count("set:" + fi.kind)
+        return v
+    elems = list(v)
+    if len(elems) != fi.n:
+        raise HarnessError(f"C10 array value of length {len(elems)} for {fi}")
+    if how == "whole":
+        try:
+            setattr(c, fi.name, v)
+            res.count("set:" + fi.kind + ":whole")
+            return elems
+        except Exception:
+            res.count("whole-array-refused-fallback-to-elements:" + fi.kind)
+    elif how == "slices":
+        h = fi.n // 2
+        ok = True
+        for lo, hi in ((0, h), (h, fi.n)):
+            if lo == hi:
+                continue
+            try:
+                getattr(c, fi.name)[lo:hi] = elems[lo:hi]
+            except Exception:
+                ok = False
+        if ok:
+            res.count("set:" + fi.kind + ":slices")
+            return elems
+        res.count("slice-refused-fallback-to-elements:" + fi.kind)
+    elif how != "items":
+        raise HarnessError(f"unknown assignment form {how}")
+    stored = []
+    for i, e in enumerate(elems):
+        try:
+            getattr(c, fi.name)[i] = e
+            stored.append(e)
+        except Exception:
+            res.count("element-refused:" + fi.kind)
+            stored.append(0)
+    res.count("set:" + fi.kind + ":items")
+    return stored
+
+
 def build_instance(trace: dict, res: Result):
     cls = msgs.resolve(trace["cls"])
     m = cls()
@@ -158,12 +214,9 @@ def build_instance(trace: dict, res: Result):
         c, ccls, _off = msgs.walk(m, s["p"])
         fi = msgs.field(ccls, s["f"])
         v = dec(s["v"])
-        try:
-            setattr(c, fi.name, v)
-        except Exception:
-            res.count("set-refused:" + fi.kind)
+        v = _assign(c, fi, v, s.get("how", "whole"), res)
+        if v is None:
             continue
-        res.count("set:" + fi.kind)
         sp = _specials(fi, v)
         if sp and any(len(p) == 2 for p in s["p"]):
             sp.add("in-struct-array")
@@ -322,6 +375,9 @@ def _class_ref(md_only: bool):
     return st.one_of(msgs.hyp_class_ref(None, True), st.sampled_from(pool), st.sampled_from(fam))
 
 
+_HOW = st.sampled_from(["whole", "whole", "items", "items", "slices"])
+
+
 @st.composite
 def case(draw, route: str):
     ref = draw(_class_ref(route == "message"))
@@ -334,7 +390,10 @@ def case(draw, route: str):
             if key in seen:
                 continue
             seen.add(key)
-            sets.append({"p": path, "f": fi.name, "v": draw(_value(fi))})
+            step = {"p": path, "f": fi.name, "v": draw(_value(fi))}
+            if fi.kind in ARRAY_KINDS:
+                step["how"] = draw(_HOW)
+            sets.append(step)
     t = {"sub": route, "cls": ref, "sets": sets}
     if route == "message":
         t["hdr"] = draw(_header())
